@@ -173,6 +173,12 @@ impl Prop for C08T {
         }
         let mut split_in_payload = false;
         if !sc.flag("no_process") && sc.msgs.iter().all(|m| m.render().len() <= sc.n) {
+            // same writer implementation as process uses (heapless::Vec<u8,N>, cleared per
+            // message): what a writer does with the bytes is C04's subject
+            let a = exec(&run_exec(sc, bytes.clone(), render(&sc.msgs).1, Sink::HeaplessN, vec![]), st);
+            if a.crashed() {
+                return Verdict::Skip("skip:crashed(C05)");
+            }
             for i in 0..sc.scheds.len() {
                 let o = exec(&process_exec(sc, bytes.clone(), i), st);
                 if o.crashed() {
